@@ -52,7 +52,11 @@ func Gen(t *rapid.T) Op {
 	op := Op{K: k, A: rapid.IntRange(0, 7).Draw(t, "a"), B: rapid.IntRange(0, 7).Draw(t, "b")}
 	switch k {
 	case "fresh":
-		d := gen.Mesh(t, gen.MeshOpts{MaxN: 6, MaxPrims: 4, NeedPos: rapid.IntRange(0, 3).Draw(t, "needpos") > 0, Materials: true, DupPos: true,
+		var val *rapid.Generator[float64]
+		if rapid.IntRange(0, 7).Draw(t, "specialValues") == 0 {
+			val = gen.SpecialVal() // NaN, infinities, -0, extreme magnitudes: raw scan data contains them
+		}
+		d := gen.Mesh(t, gen.MeshOpts{MaxN: 6, MaxPrims: 4, NeedPos: rapid.IntRange(0, 3).Draw(t, "needpos") > 0, Materials: true, DupPos: true, Val: val,
 			Attrs: []gen.AttrSpec{{Name: modeling.PositionAttribute, Arity: 3}, {Name: modeling.NormalAttribute, Arity: 3}, {Name: modeling.TexCoordAttribute, Arity: 2},
 				{Name: modeling.ColorAttribute, Arity: 3}, {Name: "w", Arity: 1}, {Name: modeling.RotationAttribute, Arity: 4}}}, "m")
 		op.M = &d
@@ -188,6 +192,9 @@ func Apply(op Op, a, b modeling.Mesh) []modeling.Mesh {
 		}
 		return one(a.SetIndices(idx))
 	case "setmat":
+		if op.A%3 == 0 {
+			return one(a.SetMaterial(*gen.SpacedMaterials[op.B%2]))
+		}
 		return one(a.SetMaterial(*gen.MaterialPool[op.B%4]))
 	case "setmats":
 		var ms []modeling.MeshMaterial
@@ -195,6 +202,9 @@ func Apply(op Op, a, b modeling.Mesh) []modeling.Mesh {
 			mm := modeling.MeshMaterial{PrimitiveCount: op.X[i]}
 			if op.X[i+1] >= 0 {
 				mm.Material = gen.MaterialPool[op.X[i+1]%4]
+				if (op.A+i)%3 == 0 { // a shared pointer to a material whose name contains spaces
+					mm.Material = gen.SpacedMaterials[op.X[i+1]%2]
+				}
 			}
 			ms = append(ms, mm)
 		}
@@ -265,6 +275,19 @@ func Apply(op Op, a, b modeling.Mesh) []modeling.Mesh {
 		a.ScanPrimitives(func(i int, p modeling.Primitive) {})
 		a.VertexNeighborTable()
 		a.OctTree()
+		// read-only accessors must not write either
+		for _, name := range a.Float3Attributes() {
+			a.BoundingBox(name)
+		}
+		for i := 0; i < a.PrimitiveCount() && a.Topology() == modeling.TriangleTopology; i++ {
+			tri := a.Tri(i)
+			tri.Bounds()
+			tri.Plane(modeling.PositionAttribute)
+			tri.Area3D(modeling.PositionAttribute)
+			tri.UniqueVertices()
+		}
+		a.Materials()
+		a.AttributeLength()
 	}
 	return nil
 }
